@@ -321,7 +321,7 @@ def faults_extra(prop, tier, seed):
         for flow in FAULT_FLOWS:
             ops = [dict(op="Fault", flow=flow, pos=0, kind="generic", sw=sw)]
             for pos in range(1, 9):
-                for kind in ("generic", "notfound", "cancelled"):
+                for kind in ("generic", "notfound", "cancelled", "ctxdone"):
                     ops.append(dict(op="Fault", flow=flow, pos=pos, kind=kind, sw=sw))
             out.append(dict(id="flt_%s_%s" % (flow, "sw" if sw else "plain"), ops=ops))
     return out
@@ -333,7 +333,7 @@ def faults_family():
         nontrivial=lambda p, l: l["op"]["pos"] > 0 and l["res"] != "skip",
         mc=dict(quick=[("MC_Faults.tla", "MC_Faults.cfg")], thorough=[("MC_Faults.tla", "MC_Faults.cfg")]),
         gen=[], extra=faults_extra,
-        rule={"*": "for each of 15 flows (authorize, fetch in node-led / token / wrapped / re-wrapped mode, token creation, root rotation from existing and from empty storage, reinitialisation, node credential rotation, server-certificate generation, node-side create, handle, handle-with-retry of a server-led response, and the first protocol.Dial of an authorised node against a real listener) the storage operations of the call are counted on a fault-free run of the REAL code, then the call is re-run once per (position, kind in generic / not-found / cancelled) with exactly that operation failing; non-trivial = runs with an injected fault; thorough adds the storage-wrapper variant"},
+        rule={"*": "for each of 15 flows (authorize, fetch in node-led / token / wrapped / re-wrapped mode, token creation, root rotation from existing and from empty storage, reinitialisation, node credential rotation, server-certificate generation, node-side create, handle, handle-with-retry of a server-led response, and the first protocol.Dial of an authorised node against a real listener) the storage operations of the call are counted on a fault-free run of the REAL code, then the call is re-run once per (position, kind in generic / not-found / cancelled / context really cancelled while the operation itself succeeds) with exactly that operation failing; non-trivial = runs with an injected fault; thorough adds the storage-wrapper variant"},
         assumptions=["single faults only; positions are enumerated from the real run, the spec's operation sequences are compared as drift",
                      "the bystander record of another node and the token record are read from the inner storage, bypassing injection"],
     )
